@@ -45,6 +45,11 @@ ALLOW_ESCAPE = {
     ("rig.bitfield:BitField.__init__", "_fields"):
         "private constructor argument: views of one bit field share the "
         "field tree by design",
+    ("rig.bitfield:BitField.__init__", "_field_values"):
+        "private constructor argument (leading underscore; read: "
+        "BitField.__call__ passes a dictionary it has just built); whether "
+        "the store is spelt as a statement or a conditional expression "
+        "makes no difference",
     ("rig.bitfield:BitField._Field.__init__", "tags"):
         "internal record; every caller must pass a fresh set (checked at the "
         "call sites)",
@@ -342,7 +347,8 @@ def check(program, rep):
     from ..core import _is_reference
     for key in list(ALLOW_MUTATE) + list(ALLOW_ESCAPE):
         if key not in used_allow:
-            if _is_reference("C17", program):
+            if _is_reference("C17", program) and \
+                    not program.has(key[0]):
                 raise AnalysisError("allow-list entry %s no longer matches "
                                     "anything (anchor vanished)" % (key,))
             rep.note("allow-list entry %s matches nothing on this tree" %
